@@ -3,6 +3,7 @@
 package ws
 
 import (
+	"strings"
 	"bytes"
 	"crypto/sha1"
 	"encoding/base64"
@@ -308,3 +309,15 @@ func (c *vNetConn) SetDeadline(t time.Time) error { return nil }
 func (c *vNetConn) SetReadDeadline(t time.Time) error { return nil }
 
 func (c *vNetConn) SetWriteDeadline(t time.Time) error { return nil }
+
+// vHasUpgradeToken: reference for "the Connection header contains the upgrade token"
+// (RFC 7230 list of tokens, compared case-insensitively) on concrete values.
+func vHasUpgradeToken(v string) bool {
+	for _, part := range strings.Split(v, ",") {
+		t := strings.Trim(part, " \t")
+		if strings.EqualFold(t, "upgrade") {
+			return true
+		}
+	}
+	return false
+}
